@@ -8,7 +8,8 @@ def handlers : List (List String → Option String) := [
   Lou.Resolve.handle?,
   Lou.Log.handle?,
   Lou.HyphProto.handle?,
-  Lou.Meta.handle?
+  Lou.Meta.handle?,
+  Lou.ImageProto.handle?
 ]
 
 def handleLine (line : String) : String :=
